@@ -512,6 +512,16 @@ func byteXor(dst, b1, b2 []byte) ([]byte, error) {
 	return dst, nil
 }
 
+// feEqual reports whether a and b represent the same field element.
+// Two fieldElements may hold the same residue in different limbs (the limbs are
+// only partially reduced), so the arrays must not be compared with ==.
+func feEqual(a, b *fieldElement) bool {
+	var sa, sb [32]byte
+	feToBytes(&sa, a)
+	feToBytes(&sb, b)
+	return sa == sb
+}
+
 // curve25519Elligator2 implements a map from fieldElement to a point on Curve25519
 // as defined in section G.2.1. of [RFC9380]
 // [RFC9380]: https://datatracker.ietf.org/doc/html/rfc9380#ell2-opt
@@ -567,7 +577,7 @@ func curve25519Elligator2(u fieldElement) (xn, xd, yn, yd fieldElement) {
 	feMul(&tv2, &tv2, &gxd) // Compute tv2 = tv2 * gxd
 
 	// y1 = y11 if e1 == 1 else y12
-	if tv2 == gx1 {
+	if feEqual(&tv2, &gx1) {
 		e1 = 1
 	}
 	feCopy(&y1, &y12)
@@ -582,7 +592,7 @@ func curve25519Elligator2(u fieldElement) (xn, xd, yn, yd fieldElement) {
 	feMul(&tv2, &tv2, &gxd) // Compute tv2 = tv2 * gxd
 
 	// y2 = y21 if e == 1 else y22
-	if tv2 == gx2 {
+	if feEqual(&tv2, &gx2) {
 		e2 = 1
 	}
 	feCopy(&y2, &y22)
@@ -592,7 +602,7 @@ func curve25519Elligator2(u fieldElement) (xn, xd, yn, yd fieldElement) {
 	feMul(&tv2, &tv2, &gxd) // Compute tv2 = tv2 * gxd
 
 	// xn = x1n if e3 == 1 else x2n
-	if tv2 == gx1 {
+	if feEqual(&tv2, &gx1) {
 		e3 = 1
 	}
 	feCopy(&xn, &x2n)
@@ -631,7 +641,7 @@ func mapToCurveElligator2Ed25519(u fieldElement) kyber.Point {
 	feSub(&yn, &xMn, &xMd) // Compute yn = xMn - xMd
 	feAdd(&yd, &xMn, &xMd) // Compute yd = xMn + xMd
 	feMul(&tv1, &xd, &yd)  // Compute tv1 = xd * yd
-	if tv1 == zero {
+	if feEqual(&tv1, &zero) {
 		e = 1
 	}
 
